@@ -19,6 +19,7 @@ Verdicts
 from __future__ import annotations
 
 import math
+import time
 import warnings
 from fractions import Fraction as Fr
 
@@ -43,7 +44,10 @@ RULE = ("case kinds: smallm (cone, α, vi, vj), delta (cone, α, value set), cov
         "exact, so gaps / scores must be bit-identical and equal the model's on the translated values; a quarter "
         "of the delta / f1 / hv cases carry such an offset too), afteruse (the order object after it has been "
         "handed to the constructors of the algorithm classes, two objects sharing it, optionally one step: W and "
-        "α unchanged bit for bit and gaps / F1 with the USED order equal the model's). Cones: integer-row cones "
+        "α unchanged bit for bit and gaps / F1 with the USED order equal the model's), large (n ∈ {255, 256, 257, "
+        "300, 513, 1030}: a front of ≤ 6 lattice points plus n − |front| points each dominated in the interior by "
+        "every front point, so every gap is decided by the front; all n gaps compared exactly, the tail and the "
+        "indices around 256 / 512 / 1024 also through the Lean driver, and the F1 of front + tail design). Cones: integer-row cones "
         "(harness/cones.py + scaled/flat ones) with dyadic value sets (float path exact, compared with ==) and "
         "the bundled orders and rotated orthonormal cones (Pythagorean rotations of the orthant in 2-D / 3-D, square "
         "orthonormal non-permutation W) with their real float W and solver α exported exactly (1e-12 / band); "
@@ -56,6 +60,7 @@ ASSUMPTIONS = [
     "α is a parameter of the functions: the comparison uses the α the code was given (exported exactly)",
 ]
 MAX_JOBS = 14
+LARGE_1030_IN_QUICK = False  # n = 1030: ~8 s per call of the real O(n²) get_delta (and F1 calls it again): thorough only
 
 TAU = Fr(1, 10 ** 6)
 ABS = Fr(1, 10 ** 9)
@@ -473,6 +478,19 @@ def gen(ctx):
                "model": rng.choice(["exact", "shift", "swap", "noisy"]),
                "shift": [core.dyadic(rng, -4, 4, 2) for _ in range(4)]}
 
+    # ---- LARGE value sets: sizes around plausible internal block sizes (fixed list in every run)
+    sizes = [255, 256, 257, 300, 513] + ([1030] if ctx.tier == "thorough" or LARGE_1030_IN_QUICK else [])
+    extra = ([rng.choice([258, 384, 511, 512, 600, 767, 769, 1000, 1023, 1025]) for _ in range(28)]
+             if ctx.tier == "thorough" else [])
+    for k, n in enumerate(sizes + extra):
+        if k % ctx.nworkers != ctx.worker:
+            continue
+        cname = rng.choice(["orthant2", "acute2", "obtuse2", "skew2", "redundant2", "threefacet2", "orthant3",
+                            "acute3", "fourfacet3", "pyramid3", "scaled2"])
+        W, _, _ = cone_info(cname)
+        yield {"kind": "large", "cone": cname, "W": W, "alpha": [2.0 ** rng.randint(-1, 1) for _ in W], "n": n,
+               "seed": rng.randrange(10 ** 6), "nfront": rng.randint(1, 6)}
+
     # ---- TRANSLATION: gaps, coverage and scores are functions of differences only
     for _ in range(ctx.n(30, 1200)):
         name, W, _, exactW = pick_cone(ALPHA_CONES)
@@ -601,7 +619,7 @@ def run_case(ctx, case):
     ctx.count("cone_" + case["cone"])
     {"smallm": run_smallm, "delta": run_delta, "cover": run_cover, "uncov": run_uncov, "f1": run_f1,
      "hv": run_hv, "hvmodel": run_hvmodel, "history": run_history, "enduser": run_enduser,
-     "translate": run_translate, "afteruse": run_afteruse}[kind](ctx, case)
+     "translate": run_translate, "afteruse": run_afteruse, "large": run_large}[kind](ctx, case)
 
 
 def _classify_gap(ctx, case, what, got, spec: Fr, bro: Fr, exact, where):
@@ -980,6 +998,117 @@ def run_f1(ctx, case):
             _viol(ctx, "f1-monotone", "ε-F1 decreases as ε grows", case,
                           detail={"eps": [e1, e2], "values": [v1, v2]})
     ctx.case_done(case, nontrivial, canon=[W, alpha, case["mu"], truth, pred, case["eps"]])
+
+
+# --------------------------------------------------------------------------------------------- large value sets
+def _large_points(case):
+    """front (≤ 6 lattice points) + dominated points q with f − q ∈ int C for EVERY front point f, shuffled so
+    that the front sits at random positions; returns (mu as float array, front indices)"""
+    import random
+
+    rng = random.Random(case["seed"])
+    W = np.array(case["W"], dtype=float)
+    m = W.shape[1]
+    n, nf = case["n"], min(case["nfront"], case["n"])
+    front = [[float(rng.randint(-6, 6)) / 2 for _ in range(m)] for _ in range(nf)]
+    d = None
+    for _ in range(500):
+        c = [float(rng.randint(-3, 3)) for _ in range(m)]
+        if np.all(W @ np.array(c) > 0):
+            d = np.array(c)
+            break
+    if d is None:
+        raise RuntimeError("no interior direction found")
+    Fa = np.array(front)
+    pts = []
+    k = 8
+    while len(pts) < n - nf:
+        q = Fa[rng.randrange(nf)] - (k + rng.randint(0, 40)) * d / 2 + np.array(
+            [rng.randint(-8, 8) / 2 for _ in range(m)])
+        if np.all((Fa - q) @ W.T > 0):
+            pts.append(q.tolist())
+        else:
+            k += 1
+    idx = list(range(n))
+    rng.shuffle(idx)
+    fpos = sorted(idx[:nf])
+    mu = np.zeros((n, m))
+    rest = iter(pts)
+    fi = iter(front)
+    fset = set(fpos)
+    for i in range(n):
+        mu[i] = next(fi) if i in fset else next(rest)
+    return mu, fpos
+
+
+def run_large(ctx, case):
+    """(R) `gap-tail-block`: every gap of a large value set, in particular the last indices and the indices
+    around 256 / 512 / 1024, equals the geometric gap; and the ε-F1 of front + a tail design follows."""
+    from vopy.utils import get_delta
+    from vopy.utils.evaluate import calculate_epsilonF1_score
+
+    mu, fpos = _large_points(case)
+    n = len(mu)
+    W = np.array(case["W"], dtype=float)
+    alpha = np.array(case["alpha"], dtype=float)
+    ctx.count("large_n_%d" % n)
+    t0 = time.time()
+    r = call(get_delta, mu.copy(), W.copy(), alpha.reshape(-1, 1).copy())
+    ctx.count("large_get_delta_ms", int(1000 * (time.time() - t0)))
+    if r[0] == "exc" or np.shape(r[1]) != (n, 1):
+        _viol(ctx, "gap-tail-block", "get_delta raised / returned the wrong shape on a large value set", case,
+              detail={"n": n, "code": str(r[1])[:200]})
+        return
+    d = np.ravel(r[1])
+    # all n gaps: every non-front point is dominated by every front point and m(i, ·) is monotone in the cone
+    # order, so max_j m(i, j) is attained on the front; integer rows, half-integer values and power-of-two α
+    # make this numpy evaluation exact
+    Fa = mu[fpos]
+    prod = np.clip((Fa[None, :, :] - mu[:, None, :]) @ W.T, 0, None)          # (n, |F|, N)
+    expect = (prod / alpha).min(axis=2).max(axis=1, initial=0.0)
+    bad = [int(i) for i in np.nonzero(d != expect)[0]]
+    # the tail, the block boundaries and a random sample also through the Lean driver (gaps within sample ∪ front
+    # equal the gaps in the full set by the same monotonicity argument)
+    import random
+
+    rng = random.Random(case["seed"] + 1)
+    sample = set(range(max(0, n - 50), n)) | {i for i in (255, 256, 257, 511, 512, 513, 1023, 1024, 1025) if i < n}
+    sample |= {rng.randrange(n) for _ in range(20)} | set(fpos)
+    sample = sorted(sample)
+    dm = core.parse_qvec(ctx.ask("delta", core.qmat(mu[sample]), core.qmat(W), core.qvec(alpha)))
+    for pos, i in enumerate(sample):
+        if F(expect[i]) != dm[pos]:
+            raise RuntimeError(f"large: harness oracle {expect[i]} != Lean gap {dm[pos]} at index {i}")
+        if not same_value(d[i], dm[pos], True) and i not in bad:
+            bad.append(i)
+    if bad:
+        bad.sort()
+        _viol(ctx, "gap-tail-block", "get_delta on a large value set: some designs' gaps differ from the geometric "
+              "gap (largest uniform shift by which some design dominates them)", case,
+              detail={"n": n, "n_wrong": len(bad), "first_wrong": bad[:5], "last_wrong": bad[-5:],
+                      "code": [float(d[i]) for i in bad[:5]], "gap": [float(expect[i]) for i in bad[:5]]})
+    # ε-F1 of "true Pareto set + tail design(s)"
+    order = make_order(case["W"], case["alpha"])
+    truth = sorted(int(i) for i in order.get_pareto_set(mu.copy()))
+    tail = [i for i in (n - 1, n - 2, 256, 512) if 0 <= i < n and i not in truth and expect[i] > 0][:2]
+    pred = truth + tail
+    pos_of = {i: p for p, i in enumerate(sample)}
+    if all(i in pos_of for i in pred):
+        gaps = sorted({float(expect[i]) for i in tail})
+        # every F1 call runs the O(n²) get_delta again: two ε (below the smallest tail gap / the tie) for small n
+        ladder = [gaps[0] / 2] + ([gaps[0]] if n <= 300 else []) if gaps else [0.0]
+        for eps in ladder:
+            model = ctx.ask("f1", core.qmat(mu[sample]), core.qmat(W), core.qvec(alpha),
+                            core.nats(sorted(pos_of[i] for i in truth)), core.nats([pos_of[i] for i in pred]),
+                            core.q(eps))
+            rf = call(calculate_epsilonF1_score, _DS(mu.copy()), order, list(truth), list(pred), eps)
+            ctx.count("large_f1_compared")
+            if rf[0] == "exc" or model in ("unknown", "nan") or float(rf[1]) != float(Fr(model)):
+                _viol(ctx, "gap-tail-block", "ε-F1 of the true Pareto set plus late-indexed dominated designs of a "
+                      "large value set differs from the score built from the geometric gaps", case,
+                      detail={"n": n, "eps": eps, "pred_tail": tail, "tail_gaps": [float(expect[i]) for i in tail],
+                              "code": str(rf[1]), "model": model})
+    ctx.case_done(case, True, canon=[case["W"], case["alpha"], n, case["seed"], case["nfront"]])
 
 
 # --------------------------------------------------------------------------------------------- translation
